@@ -4,6 +4,7 @@
   proofs in Emitter/Lemmas/Broker.lean.
 -/
 import Emitter.Lemmas.Broker
+import Emitter.Lemmas.BrokerHistory
 namespace Emitter.C02
 open Emitter Emitter.Trie Emitter.Security Emitter.Broker
 
@@ -94,5 +95,217 @@ theorem reject_publish (auth : Auth) (b : B) (name : String) (c : Conn) (qos : U
 example : Sync (accept (accept {} "c1" [1]) "c2" [2]) :=
   Broker.sync_accept _ _ _ (Broker.sync_accept _ _ _ Broker.sync_init (by simp) (by simp)) (by simp [accept]) (by
     intro c hc; simp [accept] at hc; subst hc; decide)
+
+/-! ## History level: the model refines the set `A` of acknowledged, not yet removed subscriptions
+
+Specification: `Emitter/Spec/Subscriptions.lean` (`Spec.SpecState`, `Spec.effect`, `Spec.step`,
+`Spec.receivers`; no counters, no index). Histories are lists of `Spec.Ev` — accepts, requests of
+any kind by any connection, changes of the ban list — run on the model by `Broker.run` and on the
+specification by `Spec.run`, from a pristine broker `b₀` (no connection, empty index; either
+matcher mode). `Spec.wellFormed`: accepted names are distinct and connection ids have distinct
+hashes (the side conditions of `sync_accept`). Proofs in `Emitter/Lemmas/BrokerHistory.lean`.
+
+Repeated subscribes: a held filter is not entered twice and ONE accepted unsubscribe removes it
+(`Conn.CanSubscribe` = `Counters.IncrementOnce`), see the docstring of `Spec.effect`. -/
+
+/-- After EVERY well-formed history: the invariant holds, and for every connection `c` and filter
+`σ`: `c` holds `σ` in the model's bookkeeping ⇔ `(c.name, σ) ∈ A` ⇔ the subscription index has
+`σ` under `c`'s key; `c` is open ⇔ its name is open in the specification; nothing in `A` belongs
+to a connection that is unknown or closed. -/
+theorem history_refines (auth : Auth) (b₀ : B) (h0 : Pristine b₀) (evs : List Spec.Ev)
+    (hwf : Spec.wellFormed evs = true) :
+    let b := run auth b₀ evs
+    let S := Spec.run auth (Spec.init b₀) evs
+    Sync b ∧ b.mode = b₀.mode ∧ S.banned = b.banned ∧
+    (∀ c ∈ b.conns, (c.name ∈ S.alive ↔ c.alive = true) ∧
+        ∀ σ, (hasCounter c σ ↔ (c.name, σ) ∈ S.A) ∧
+             ((c.alive = true ∧ hasCounter c σ) ↔ (c.name, σ) ∈ S.A) ∧
+             ((σ, c.key) ∈ b.trie.root.abs ↔ (c.name, σ) ∈ S.A)) ∧
+    (∀ n, (n ∈ S.alive ∨ ∃ σ, (n, σ) ∈ S.A) → ∃ c ∈ b.conns, c.name = n ∧ c.alive = true) :=
+  Broker.history_refines_spelled auth b₀ h0 evs hwf
+
+/-- the step that carries the induction: one request, by any connection, keeps the model and
+the specification related (`Refines`: same ban list, same open connections, same pairs) -/
+theorem refines_step (auth : Auth) {b : B} {S : Spec.SpecState} (hs : Sync b) (hr : Refines b S)
+    (name : String) (r : Req) : Refines (step auth b name r).1 (Spec.step auth S name r) :=
+  Broker.refines_step auth hs hr name r
+
+/-- For an accepted PUBLISH after any well-formed history, the PUBLISH packets the broker emits
+are — as a multiset (`List.Perm`) — exactly one packet, channel (key and options stripped) and
+payload unchanged, for every open connection that holds in `A` a filter matching the channel
+(`matchesMode`, the C01 relation, in the broker's matcher mode), except the publisher when it
+excluded itself (`me=0`). -/
+theorem publish_history_exact (auth : Auth) (b₀ : B) (h0 : Pristine b₀) (evs : List Spec.Ev)
+    (hwf : Spec.wellFormed evs = true)
+    (name : String) (c : Conn) (qos : UInt8) (retain : Bool) (mid : UInt16) (topic payload : Bytes) (g : Grant)
+    (hc : (run auth b₀ evs).conn? name = some c) (ha : c.alive = true)
+    (hst : (parseChannel (resolve c topic)).ctype = chStatic)
+    (hauth : auth (run auth b₀ evs).banned (parseChannel (resolve c topic)) permWrite = some g)
+    (hx : g.has permExtend = false) :
+    ((step auth (run auth b₀ evs) name (.publish qos retain mid topic payload)).2.filter isPub).Perm
+      ((Spec.receivers b₀.mode (Spec.run auth (Spec.init b₀) evs) (g.contract :: (parseChannel (resolve c topic)).query)
+          (if (parseChannel (resolve c topic)).exclude then some name else none)).map
+        (fun n => (n, Pkt.pub (parseChannel (resolve c topic)).channel payload))) :=
+  Broker.publish_history_exact auth b₀ h0 evs hwf name c qos retain mid topic payload g hc ha hst hauth hx
+
+/-- the same, read per receiver (if and only if), and nobody receives the message twice -/
+theorem publish_history_iff (auth : Auth) (b₀ : B) (h0 : Pristine b₀) (evs : List Spec.Ev)
+    (hwf : Spec.wellFormed evs = true)
+    (name : String) (c : Conn) (qos : UInt8) (retain : Bool) (mid : UInt16) (topic payload : Bytes) (g : Grant)
+    (hc : (run auth b₀ evs).conn? name = some c) (ha : c.alive = true)
+    (hst : (parseChannel (resolve c topic)).ctype = chStatic)
+    (hauth : auth (run auth b₀ evs).banned (parseChannel (resolve c topic)) permWrite = some g)
+    (hx : g.has permExtend = false) :
+    let S := Spec.run auth (Spec.init b₀) evs
+    let ch := parseChannel (resolve c topic)
+    let out := (step auth (run auth b₀ evs) name (.publish qos retain mid topic payload)).2.filter isPub
+    (∀ n p, (n, p) ∈ out ↔
+      p = .pub ch.channel payload ∧ n ∈ S.alive ∧
+      (∃ f, (n, f) ∈ S.A ∧ matchesMode b₀.mode f (g.contract :: ch.query) = true) ∧
+      ¬ (ch.exclude = true ∧ n = name)) ∧
+    (out.map Prod.fst).Nodup :=
+  Broker.publish_history_iff auth b₀ h0 evs hwf name c qos retain mid topic payload g hc ha hst hauth hx
+
+/-- After an accepted unsubscribe of `σ` by `n` (or a presence request cancelling the watch
+`σ`), or after `n`'s connection ended (`Spec.removes`), and as long as no later event adds
+`(n, σ)` again (`Spec.everAdds`): the pair is not in `A`, the connection record does not hold
+`σ`, the index has no entry for it, and no accepted publish is delivered to `n` on account of
+`σ` — `n` gets a published message only if it holds ANOTHER filter matching the channel. -/
+theorem removed_never_receives (auth : Auth) (b₀ : B) (h0 : Pristine b₀) (h₁ : List Spec.Ev) (e : Spec.Ev)
+    (h₂ : List Spec.Ev) (hwf : Spec.wellFormed (h₁ ++ e :: h₂) = true) (n : String) (σ : Path)
+    (hrem : Spec.removes auth (Spec.run auth (Spec.init b₀) h₁) e (n, σ) = true)
+    (hno : Spec.everAdds auth (Spec.run auth (Spec.init b₀) (h₁ ++ [e])) h₂ (n, σ) = false) :
+    let b := run auth b₀ (h₁ ++ e :: h₂)
+    let S := Spec.run auth (Spec.init b₀) (h₁ ++ e :: h₂)
+    (n, σ) ∉ S.A ∧
+    (∀ x ∈ b.conns, x.name = n → ¬ hasCounter x σ ∧ (σ, x.key) ∉ b.trie.root.abs) ∧
+    ∀ (name : String) (c : Conn) (qos : UInt8) (retain : Bool) (mid : UInt16) (topic payload : Bytes) (g : Grant),
+      b.conn? name = some c → c.alive = true → (parseChannel (resolve c topic)).ctype = chStatic →
+      auth b.banned (parseChannel (resolve c topic)) permWrite = some g → g.has permExtend = false →
+      (∀ f, f ≠ σ → (n, f) ∈ S.A → matchesMode b₀.mode f (g.contract :: (parseChannel (resolve c topic)).query) = false) →
+      ∀ p, (n, p) ∉ (step auth b name (.publish qos retain mid topic payload)).2.filter isPub :=
+  Broker.removed_never_receives auth b₀ h0 h₁ e h₂ hwf n σ hrem hno
+
+/-! ### non-vacuity: a concrete history with two clients
+
+A toy authorizer: the key `k` (unless banned) grants everything but `extend` under contract 7,
+the key `x` is an extendable key, any other key is refused. Channels are given as bytes:
+`k/a/` = 107 47 97 47, `k/+/` = 107 47 43 47, `k/b/` = 107 47 98 47, `?me=0` = 63 109 101 61 48. -/
+
+def demoAuth : Auth := fun banned ch _ =>
+  if banned.contains ch.key then none
+  else if ch.key == [107] then some ⟨7, 0x3f⟩
+  else if ch.key == [120] then some ⟨7, 0x7f⟩
+  else none
+
+/-- c1 and c2 connect; c1 subscribes `k/a/` TWICE; c2 subscribes the wildcard `k/+/`; c1 is
+refused with the unknown key `z` -/
+def demo₁ : List Spec.Ev :=
+  [.accept "c1" [1], .accept "c2" [2],
+   .req "c1" (.subscribe 1 [107, 47, 97, 47] 0),
+   .req "c1" (.subscribe 2 [107, 47, 97, 47] 0),
+   .req "c2" (.subscribe 3 [107, 47, 43, 47] 0),
+   .req "c1" (.subscribe 4 [122, 47, 97, 47] 0)]
+
+/-- … then c1 unsubscribes `k/a/` ONCE -/
+def demoUnsub : Spec.Ev := .req "c1" (.unsubscribe 5 [107, 47, 97, 47])
+
+/-- … then c1 links `k/b/` with auto-subscribe -/
+def demo₂ : List Spec.Ev := [.req "c1" (.link 6 [98] [107] [98, 47] true)]
+
+def demo : List Spec.Ev := demo₁ ++ demoUnsub :: demo₂
+
+/-- the filters: contract 7, then the hashed channel levels -/
+def fa : Path := [7, 3238259379]
+def fplus : Path := [7, 1815237614]
+def fb : Path := [7, 500706888]
+
+set_option maxRecDepth 8000
+
+example : Spec.wellFormed demo = true := by decide +kernel
+
+/-- the set after the first part: the repeated subscribe left ONE entry, the refused ones none -/
+example : (Spec.run demoAuth (Spec.init {}) demo₁).A = [("c1", fa), ("c2", fplus)] := by decide +kernel
+
+/-- one unsubscribe after two subscribes removes the subscription -/
+example : (Spec.run demoAuth (Spec.init {}) demo).A = [("c2", fplus), ("c1", fb)] := by decide +kernel
+
+/-- `history_refines` on the demo history: c1's record holds exactly `k/b/` (from the link), and
+so does the index -/
+example : ∀ c ∈ (run demoAuth {} demo).conns, c.name = "c1" →
+    c.alive = true ∧ hasCounter c fb ∧ ¬ hasCounter c fa ∧
+    (fb, c.key) ∈ (run demoAuth {} demo).trie.root.abs ∧ (fa, c.key) ∉ (run demoAuth {} demo).trie.root.abs := by
+  intro c hc hn
+  obtain ⟨_, _, _, h, _⟩ := history_refines demoAuth {} ⟨rfl, rfl⟩ demo (by decide +kernel)
+  obtain ⟨h1, h2⟩ := h c hc
+  rw [hn] at h1 h2
+  exact ⟨h1.1 (by decide +kernel), ((h2 fb).1).2 (by decide +kernel),
+    fun hh => absurd (((h2 fa).1).1 hh) (by decide +kernel),
+    ((h2 fb).2.2).2 (by decide +kernel), fun hh => absurd (((h2 fa).2.2).1 hh) (by decide +kernel)⟩
+example : ∃ c ∈ (run demoAuth {} demo).conns, c.name = "c1" := by decide +kernel
+
+/-- c2's record after the demo history -/
+def c2rec : Conn :=
+  { name := "c2", guid := [2], counters := [⟨fplus, [43, 47], 1⟩] }
+
+deriving instance DecidableEq for Conn
+
+example : (run demoAuth {} demo).conn? "c2" = some c2rec := by decide +kernel
+
+/-- `publish_history_exact` applies to: c2 publishes "hi" on `k/b/` with QoS 1 after the demo history … -/
+example :
+    ((step demoAuth (run demoAuth {} demo) "c2" (.publish 1 false 9 [107, 47, 98, 47] [104, 105])).2.filter isPub).Perm
+      ((Spec.receivers .emitter (Spec.run demoAuth (Spec.init {}) demo) fb none).map
+        (fun n => (n, Pkt.pub [98, 47] [104, 105]))) :=
+  publish_history_exact demoAuth {} ⟨rfl, rfl⟩ demo (by decide +kernel) "c2" c2rec 1 false 9 [107, 47, 98, 47] [104, 105]
+    ⟨7, 0x3f⟩ (by decide +kernel) rfl (by decide +kernel) (by decide +kernel) (by decide +kernel)
+
+/-- … where both sides are what one expects: c1 (link subscription) and c2 (wildcard), the
+PUBACK not counted -/
+example : Spec.receivers .emitter (Spec.run demoAuth (Spec.init {}) demo) fb none = ["c1", "c2"] := by decide +kernel
+example : (step demoAuth (run demoAuth {} demo) "c2" (.publish 1 false 9 [107, 47, 98, 47] [104, 105])).2 =
+    [("c1", .pub [98, 47] [104, 105]), ("c2", .pub [98, 47] [104, 105]), ("c2", .puback 9)] := by decide +kernel
+
+/-- the publisher excluding itself (`k/b/?me=0`) -/
+example :
+    ((step demoAuth (run demoAuth {} demo) "c2"
+        (.publish 0 false 0 [107, 47, 98, 47, 63, 109, 101, 61, 48] [104, 105])).2.filter isPub).Perm
+      ((Spec.receivers .emitter (Spec.run demoAuth (Spec.init {}) demo) fb (some "c2")).map
+        (fun n => (n, Pkt.pub [98, 47] [104, 105]))) :=
+  publish_history_exact demoAuth {} ⟨rfl, rfl⟩ demo (by decide +kernel) "c2" c2rec 0 false 0
+    [107, 47, 98, 47, 63, 109, 101, 61, 48] [104, 105] ⟨7, 0x3f⟩ (by decide +kernel) rfl (by decide +kernel) (by decide +kernel) (by decide +kernel)
+example : Spec.receivers .emitter (Spec.run demoAuth (Spec.init {}) demo) fb (some "c2") = ["c1"] := by decide +kernel
+
+/-- the MQTT matcher mode -/
+example :
+    ((step demoAuth (run demoAuth { mode := .mqtt } demo) "c2" (.publish 1 false 9 [107, 47, 98, 47] [104, 105])).2.filter isPub).Perm
+      ((Spec.receivers .mqtt (Spec.run demoAuth (Spec.init { mode := .mqtt }) demo) fb none).map
+        (fun n => (n, Pkt.pub [98, 47] [104, 105]))) :=
+  publish_history_exact demoAuth { mode := .mqtt } ⟨rfl, rfl⟩ demo (by decide +kernel) "c2" c2rec 1 false 9 [107, 47, 98, 47] [104, 105]
+    ⟨7, 0x3f⟩ (by decide +kernel) rfl (by decide +kernel) (by decide +kernel) (by decide +kernel)
+example : Spec.receivers .mqtt (Spec.run demoAuth (Spec.init { mode := .mqtt }) demo) fb none = ["c1", "c2"] := by decide +kernel
+
+/-- `removed_never_receives` applies to c1's unsubscribe of `k/a/` (after TWO subscribes), the
+later event (a link subscribing `k/b/`) not adding it again: a publish on `k/a/` is then not
+delivered to c1 (whose remaining filter `k/b/` does not match), but still to c2 (wildcard) -/
+example : ∀ p, ("c1", p) ∉ (step demoAuth (run demoAuth {} demo) "c2"
+    (.publish 0 false 0 [107, 47, 97, 47] [104, 105])).2.filter isPub := by
+  have h := (removed_never_receives demoAuth {} ⟨rfl, rfl⟩ demo₁ demoUnsub demo₂ (by decide +kernel) "c1" fa
+    (by decide +kernel) (by decide +kernel)).2.2 "c2" c2rec 0 false 0 [107, 47, 97, 47] [104, 105] ⟨7, 0x3f⟩
+    (by decide +kernel) rfl (by decide +kernel) (by decide +kernel) (by decide +kernel)
+  apply h
+  intro f hne hin
+  have hA : (Spec.run demoAuth (Spec.init {}) (demo₁ ++ demoUnsub :: demo₂)).A =
+      [("c2", fplus), ("c1", fb)] := by decide +kernel
+  rw [hA] at hin
+  simp only [List.mem_cons, Prod.mk.injEq, List.mem_nil_iff, or_false] at hin
+  rcases hin with ⟨h1, _⟩ | ⟨_, rfl⟩
+  · exact absurd h1 (by decide +kernel)
+  · decide +kernel
+example : (step demoAuth (run demoAuth {} demo) "c2" (.publish 0 false 0 [107, 47, 97, 47] [104, 105])).2 =
+    [("c2", .pub [97, 47] [104, 105])] := by decide +kernel
+/-- … while before the unsubscribe c1 did receive it (once, in spite of the two subscribes) -/
+example : (step demoAuth (run demoAuth {} demo₁) "c2" (.publish 0 false 0 [107, 47, 97, 47] [104, 105])).2 =
+    [("c1", .pub [97, 47] [104, 105]), ("c2", .pub [97, 47] [104, 105])] := by decide +kernel
 
 end Emitter.C02
